@@ -189,10 +189,12 @@ func init() {
 	}
 	a4 = append(a4, topOnly("bind b -> struct"), topOnly("bind c -> struct"), topOnly("bind b:all -> slice"),
 		topOnly("bind a:2 -> struct"), topOnly("bind a:foo -> slice"), topOnly("bind a -> oops"), topOnly("print 1/0"),
-		topOnly("def c { bind a -> slice }"), topOnly("def c { def a { i = 9 } }"))
+		topOnly("def c { bind a -> slice }"), topOnly("def c { def a { i = 9 } }"),
+		// a type that differs from `a` only in letter case, and selectors that merely evaluate to 1
+		topOnly("def A { i = 4 }"), topOnly("bind A -> struct"), topOnly("bind a:01 -> struct"), topOnly("bind a:0x1 -> slice"))
 	registerSeq(seqSpec{
 		id: "C04",
-		rule: "explicit enumeration of all toplevel statement sequences up to length L (quick 5, thorough 6; rejected prefixes are not extended) over a 23-symbol alphabet: three distinguishable block definitions of two types, bind with every selector (none, 1, first, last, all) x target (struct, slice), " +
+		rule: "explicit enumeration of all toplevel statement sequences up to length L (quick 5, thorough 6; rejected prefixes are not extended) over a 27-symbol alphabet: three distinguishable block definitions of two types, bind with every selector (none, 1, first, last, all) x target (struct, slice), " +
 			"bind of another / of a missing type, the compile-error forms (:all->struct, :2, :foo, ->oops), a bind inside a block, a block of the bound type nested inside another block (must not be selected), a runtime error. Compared with a trivial reference: binding kind and exact blocks, runtime-error class, rejection, one warning per bind after the first, nil binding without bind.",
 		sub: newRefSub("c04.seq"), alpha: a4,
 		extra: func(c *fw.Ctx, do func(string)) {
